@@ -566,7 +566,37 @@ static string handle(const string &p) {
   return "bad-op";
 }
 
+// Process-wide configuration that switches on extra code in the codec: the log level.  Every case is
+// executed at every log level, with a destination that consumes the lines; the result must not depend
+// on the level (and every run is under ASan/UBSan on the same exact-size heap copies).
+class CountingDestination : public ola::LogDestination {
+ public:
+  static unsigned long lines, bytes;
+  void Write(ola::log_level, const string &line) { lines++; bytes += line.size(); }
+};
+unsigned long CountingDestination::lines = 0;
+unsigned long CountingDestination::bytes = 0;
+
+static string handle_all_levels(const string &p) {
+  static const ola::log_level levels[] = {ola::OLA_LOG_NONE, ola::OLA_LOG_FATAL, ola::OLA_LOG_WARN,
+                                          ola::OLA_LOG_INFO, ola::OLA_LOG_DEBUG};
+  static const char *names[] = {"NONE", "FATAL", "WARN", "INFO", "DEBUG"};
+  string first;
+  for (unsigned int i = 0; i < sizeof(levels) / sizeof(levels[0]); i++) {
+    ola::SetLogLevel(levels[i]);
+    string r = handle(p);
+    if (i == 0) {
+      first = r;
+    } else if (r != first) {
+      ola::SetLogLevel(ola::OLA_LOG_NONE);
+      return first + ";lvl=differs-at-" + names[i];
+    }
+  }
+  ola::SetLogLevel(ola::OLA_LOG_NONE);
+  return first;
+}
+
 int main(int argc, char **argv) {
-  ola::InitLogging(ola::OLA_LOG_NONE, ola::OLA_LOG_NULL);
-  return vh::run(argc, argv, handle);
+  ola::InitLogging(ola::OLA_LOG_NONE, new CountingDestination());
+  return vh::run(argc, argv, handle_all_levels);
 }
